@@ -207,6 +207,15 @@ def ensure_chi_path():
         raise HarnessError('chi imported from %s, expected %s' % (root, CHI_ROOT))
 
 
+def still_writeable(case, arr, what):
+    """The caller's (writeable) array must still be writeable after it was passed to the code under test: a caller who
+    updates one vector in place between evaluations gets 'assignment destination is read-only' otherwise."""
+    if isinstance(arr, np.ndarray) and not arr.flags.writeable:
+        case.fail('input_modified', 'the array passed to %s has been made read-only (its writeable flag was cleared)' % what)
+        return False
+    return True
+
+
 def array_forms(x):
     """The same numbers in other array forms a caller may hold: a read-only array (e.g. out of a pandas / xarray
     object), a non-contiguous view (every second element of a larger buffer), a Fortran-ordered array (2-D), a
